@@ -1,6 +1,7 @@
 package main
 
 import (
+	"fmt"
 	"go/constant"
 	"go/token"
 	"go/types"
@@ -278,6 +279,72 @@ func checkC22(w *World, r *Run) {
 
 	checkC22Dispatch(w, r, ruleDisp, ruleBackoff)
 	checkC22SQL(w, r, ruleSQL)
+	// the notification outbox compares next_attempt_at / claim_until with "now" inside SQL;
+	// SQLite stores times as text in their own zone, so every time that reaches a row or a
+	// statement parameter must be normalised to UTC
+	ruleUTC := r.Rule("outbox-times-are-utc", "F9",
+		"in package notification every time.Now() is either normalised with .UTC() before any other use or only measures a duration (Since/Sub)", 10)
+	for _, fn := range w.allFuncs {
+		if fn.Pkg == nil || pkgRel(fn.Pkg.Pkg) != relNotif {
+			continue
+		}
+		ord := 0
+		for _, b := range fn.Blocks {
+			for _, ins := range b.Instrs {
+				c, ok := ins.(*ssa.Call)
+				if !ok {
+					continue
+				}
+				f := calleeObj(c)
+				if f == nil || f.Pkg() == nil || f.Pkg().Path() != "time" || f.Name() != "Now" {
+					continue
+				}
+				ord++
+				cons := fmt.Sprintf("%s: time.Now() #%d", funcName(topFunc(fn)), ord)
+				bad := ""
+				var visit func(v ssa.Value, depth int)
+				visit = func(v ssa.Value, depth int) {
+					if v.Referrers() == nil || depth > 4 {
+						return
+					}
+					for _, ref := range *v.Referrers() {
+						switch x := ref.(type) {
+						case *ssa.Call:
+							g := calleeObj(x)
+							if g != nil && g.Pkg() != nil && g.Pkg().Path() == "time" && (g.Name() == "UTC" || g.Name() == "Since" || g.Name() == "Sub") {
+								continue
+							}
+							name := "call"
+							if g != nil {
+								name = g.Name()
+							}
+							bad = name + " at " + w.Pos(posOf(x))
+						case *ssa.Store:
+							// spilled local: follow its loads
+							if a, ok := x.Addr.(*ssa.Alloc); ok && x.Val == v {
+								for _, r2 := range *a.Referrers() {
+									if ld, ok := r2.(*ssa.UnOp); ok {
+										visit(ld, depth+1)
+									}
+								}
+								continue
+							}
+							bad = "store at " + w.Pos(posOf(x))
+						case *ssa.DebugRef:
+						default:
+							if vv, ok := ref.(ssa.Value); ok {
+								visit(vv, depth+1)
+							} else {
+								bad = "use at " + w.Pos(posOf(ref))
+							}
+						}
+					}
+				}
+				visit(c, 0)
+				r.Check(bad == "", ruleUTC, cons, posOf(c), "normalised with .UTC() (or used only to measure a duration)", "a local-zone time reaches "+bad+": the outbox compares stored times with 'now' as text, so with the process outside UTC a retry is due immediately (west of UTC) or hours late (east), violating the backoff and the delivery order")
+			}
+		}
+	}
 	r.NotCovered("whether the notification database handle equals the storage's (sameDatabaseHandle is decided at construction time — with different handles the enqueue is best-effort by design); delivery, timing and the publisher")
 }
 
